@@ -1,9 +1,11 @@
 package vikja
 
 import (
+	"math"
 	"sync"
 
 	"github.com/aukilabs/hagall-common/messages/vikjapb"
+	"google.golang.org/protobuf/types/known/timestamppb"
 )
 
 type State struct {
@@ -54,15 +56,39 @@ func (s *State) SetEntityActionIfLatest(ea *vikjapb.EntityAction) bool {
 	return true
 }
 
-// older reports whether the client timestamp of a lies before the one of b.
-// The seconds and nanoseconds are compared as they are: converted to a
-// time.Time, seconds near the top of the int64 range wrap around, and a
+// older reports whether the client timestamp of a names an earlier instant than
+// the one of b. The instants are compared as seconds and nanoseconds: converted
+// to a time.Time, seconds near the top of the int64 range wrap around, and a
 // far-future action was taken for the oldest of all.
 func older(a, b *vikjapb.EntityAction) bool {
-	if a.Timestamp.GetSeconds() != b.Timestamp.GetSeconds() {
-		return a.Timestamp.GetSeconds() < b.Timestamp.GetSeconds()
+	as, an := instant(a.Timestamp)
+	bs, bn := instant(b.Timestamp)
+	if as != bs {
+		return as < bs
 	}
-	return a.Timestamp.GetNanos() < b.Timestamp.GetNanos()
+	return an < bn
+}
+
+// instant returns the seconds and the nanoseconds in [0, 1e9) of the instant a
+// timestamp names: seconds + nanos/1e9, as Timestamp.AsTime reads it, whatever
+// the nanos field holds. The seconds saturate instead of wrapping around.
+func instant(ts *timestamppb.Timestamp) (int64, int64) {
+	sec, nanos := ts.GetSeconds(), int64(ts.GetNanos())
+	q := nanos / 1e9
+	nanos -= q * 1e9
+	if nanos < 0 {
+		nanos += 1e9
+		q--
+	}
+	switch {
+	case q > 0 && sec > math.MaxInt64-q:
+		sec = math.MaxInt64
+	case q < 0 && sec < math.MinInt64-q:
+		sec = math.MinInt64
+	default:
+		sec += q
+	}
+	return sec, nanos
 }
 
 func (s *State) EntityAction(entityID uint32, actionName string) (*vikjapb.EntityAction, bool) {
